@@ -19,7 +19,7 @@
   C05.R6  closures created in a loop / comprehension bind the loop's variables at creation time (late-binding lint)
   C05.R7  regex layers (conversion *and* rebuilt layer mapping) are resolved against the evaluable being judged: per evaluation a
           fresh matcher is built or the resolution runs unconditionally
-  C05.R8  a rule only reads the architecture (rules/c05_alias.py): no in-place mutation outside LayeredArchitecture has a receiver
+  C05.R1.READONLY (first numbered C05.R8)  the lowering and the judging only read the architecture (rules/c05_alias.py): no in-place mutation outside LayeredArchitecture has a receiver
           that may be one of the per-layer lists (or the layer table) the architecture holds - followed by tag flow from the
           architecture's fields through __getitem__ / LayerMapping.get_module_filters, fields, parameters and returns; copies drop the tag
 
@@ -156,7 +156,7 @@ def run(repo: Repo) -> Result:
     receiver = check_are_named(repo, res)
     check_filter_selection(repo, res, receiver)
     check_handoff_accumulates(repo, res, receiver)
-    # ---- R8
+    # ---- R1.READONLY (a sub-rule of the lowering: what is handed to the wrapped rule must not alias the architecture's lists)
     check_architecture_untouched(repo, res)
     # ---- R6
     lbs = late_binding_closures(repo)
